@@ -83,7 +83,7 @@ FX = {"lhs_outer": os.environ.get("C19_FX_LHS", "1"),       # proposed_fixes/C19
       "fix_and": os.environ.get("C19_FX_AND", "1"),         # proposed_fixes/C19-switch_and_of_eq_treated_as_or
       "chk_truth": os.environ.get("C19_FX_TRUTH", "1"),     # proposed_fixes/C19-cascade_truth_error_ignored
       "tail_fix": os.environ.get("C19_FX_TAIL", "0"),       # proposed_fixes/C19-constfold_true_tail_result_untested
-      "emptydict_fix": os.environ.get("C19_FX_EDICT", "0")}  # proposed_fixes/C19-constfold_unhashable_in_empty_dict
+      "emptydict_fix": os.environ.get("C19_FX_EDICT", "1")}  # proposed_fixes/C19-constfold_unhashable_in_empty_dict
 
 # ------------------------------------------------------------------------------------------------
 # tree dump worker (runs the real transforms; pipeline cut after SwitchTransform)
